@@ -309,7 +309,12 @@ def rule_selection(ck, rid="C17.S1"):
 
     def holds(v):
         for a, t in facts_at(fl, r):
-            e = specialise(with_len(fl.expand(a, r), v), {})
+            e0 = fl.expand(a, r)
+            while isinstance(e0, ast.Call) and call_name(e0) in ("bool", "list", "tuple") and len(e0.args) == 1:
+                e0 = e0.args[0]
+            if isinstance(e0, (ast.ListComp, ast.GeneratorExp)) and canon(e0.generators[0].iter) == "self._schedule":
+                e0 = ast.Constant(value=v)            # the list of matches tested for truth: empty iff no schedule matches
+            e = specialise(with_len(e0, v), {})
             try:
                 val = bool(const_value(e))
             except (ValueError, TypeError):
